@@ -3,5 +3,5 @@ import YModel.SymGen
 import YModel.Sort
 import YModel.Leg
 import YModel.JsonUtil
+import YModel.DriverCore
 import YModel.Drv.C19
-import YModel.Driver
